@@ -25,7 +25,7 @@ func (l *lockedBuf) Write(p []byte) (int, error) {
 	return l.b.Write(p)
 }
 
-type runObs struct{ Out, Blocks, Binding, Err string }
+type runObs struct{ Out, Blocks, Binding, Err, Parts, Log string }
 
 func sortedLines(s string) string {
 	ls := strings.Split(s, "\n")
@@ -44,7 +44,7 @@ func suiteConcurrent(c M) M {
 	seq := make([]runObs, len(progs))
 	for i, src := range progs {
 		o := interpret(src, "input", false, false, false)
-		seq[i] = runObs{o.Out, o.Blocks, o.Binding, o.Err}
+		seq[i] = runObs{o.Out, o.Blocks, o.Binding, o.Err, o.Parts, o.Log}
 	}
 	r := M{}
 	// (a) independent calls
@@ -58,7 +58,7 @@ func suiteConcurrent(c M) M {
 				go func(i int, src []byte) {
 					defer wg.Done()
 					o := interpret(src, "input", false, false, false)
-					if (runObs{o.Out, o.Blocks, o.Binding, o.Err}) != seq[i] {
+					if (runObs{o.Out, o.Blocks, o.Binding, o.Err, o.Parts, o.Log}) != seq[i] {
 						mu.Lock()
 						diffA++
 						mu.Unlock()
@@ -97,6 +97,13 @@ func suiteConcurrent(c M) M {
 			wg2.Wait()
 			want := strings.Repeat(string(unhex(seq[i].Out)), n)
 			if sortedLines(out.b.String()) != sortedLines(want) {
+				outMismatch++
+			}
+			// warnings belong to each execution: n executions log n times what one logs
+			// (a warning is written in several pieces, so concurrent executions may interleave within a line: compare the
+			// number of warnings and the total amount of text, not the lines)
+			wantLog := strings.Repeat(string(unhex(seq[i].Log)), n)
+			if strings.Count(log.b.String(), "WARNING") != strings.Count(wantLog, "WARNING") || len(log.b.String()) != len(wantLog) {
 				outMismatch++
 			}
 			var dump1 bytes.Buffer
